@@ -24,9 +24,10 @@ import c19_units  # noqa: E402
 
 PROP = 'C19'
 THEOREMS = [
-    'C19_lookup', 'C19_frame', 'C19_reject_atomic', 'C19_reject_untyped', 'C19_accept_typed',
-    'C19_stored_typed', 'C19_duration_iso', 'C19_memory_str', 'C19_json_roundtrip_prim',
-    'C19_json_roundtrip', 'C19_set_insert', 'C19_set_remove', 'C19_reset_restores_default',
+    'C19_lookup', 'C19_frame', 'C19_other_scopes', 'C19_reject_atomic', 'C19_reject_untyped',
+    'C19_accept_typed', 'C19_stored_typed', 'C19_stored_set_canonical', 'C19_reset',
+    'C19_duration_iso', 'C19_memory_str', 'C19_json_value', 'C19_json_roundtrip',
+    'C19_set_insert', 'C19_set_remove',
 ]
 IMPL = os.path.join(lib.VERIF, 'harness', 'impl', 'c19_impl.py')
 GEN_DIR = os.path.join(lib.COQ, 'theories', 'C19')
@@ -635,7 +636,8 @@ def norm_jr(line):
 
 
 def strip_tag(tag):
-    return re.sub(r'@\d+', '', tag)
+    tag = re.sub(r'@\d+', '', tag)
+    return re.sub(r'^(stored-value-differs):.*$', r'\1', tag)
 
 
 # ---------------------------------------------------------------- known findings (predicates over inputs)
@@ -843,7 +845,7 @@ def run(tier):
             tr = None
 
     # ---- 2. proofs
-    pf = lib.proof_stage(rep, 'C19', THEOREMS, thorough=thorough)
+    pf = lib.proof_stage(rep, 'C19', THEOREMS, extra_targets=['theories/C19/Refuted.vo'], thorough=thorough)
     exe, blog = lib.build_model('c19', 'ExtractC19.v', 'c19_main.ml', 'C19_ext')
 
     if tr is None:
@@ -918,7 +920,8 @@ def run(tier):
             continue
         key = (strip_tag(tag), would)
         viol_tags.setdefault(key, []).append(i)
-    for (tag, would), idxs in sorted(viol_tags.items(), key=lambda kv: (kv[0][1] is None, kv[0][0]))[:5]:
+    for (tag, would), idxs in sorted(viol_tags.items(), key=lambda kv: (kv[0][1] is not None, kv[0][0].startswith('edgeql-'),
+                                                                   kv[0][0].startswith('json-'), -len(kv[1])))[:5]:
         i = idxs[0]
 
         def still(c, tag=tag):
